@@ -46,7 +46,7 @@ func main() {
 		win := int64(w)
 		sub := nh / len(windows)
 		r.Seed += int64(wi) * 1000 // different histories per window
-		hist.RunHistoriesX(r, sub, o, hist.StepOpts{Reopen: true, Pool: true, Mine: true, Prune: true}, 12, 45, nil,
+		hist.RunHistoriesX(r, sub, o, hist.StepOpts{Reopen: true, Pool: true, Mine: true, Prune: true, Engine: true}, 12, 45, nil,
 			func(s *hist.SUT, op hist.Op) []hist.Problem {
 				m := models[s]
 				if m == nil {
@@ -118,8 +118,9 @@ func audit(r *ev.Run, s *hist.SUT, op hist.Op, m *irr) []hist.Problem {
 	failed := strings.HasPrefix(op.Result, "FAIL")
 	prune := op.Kind == "walk" && op.Arg == ",prune"
 	before := m.value
-	if op.Kind == "walk" && !prune {
-		// blocks at heights <= irreversible height must still be on the state's chain
+	if (op.Kind == "walk" && !prune) || op.Kind == "receive" {
+		// blocks at heights <= irreversible height must still be on the state's chain (the engine's
+		// receive path walks the state to the ledger tip without the prune flag)
 		for h := int64(0); h <= before && h < int64(len(m.chain)); h++ {
 			if h >= int64(len(newChain)) || newChain[h] != m.chain[h] {
 				ps = append(ps, hist.Problem{Sig: "irr|finalised-block-left-the-state-chain", Detail: fmt.Sprintf(
@@ -127,6 +128,10 @@ func audit(r *ev.Run, s *hist.SUT, op hist.Op, m *irr) []hist.Problem {
 				return ps
 			}
 		}
+	}
+	if op.Kind == "receive" {
+		// its internal walk may be refused by the finality rule: no verdict on the result itself
+	} else if op.Kind == "walk" && !prune {
 		// was a refusal justified? the walk had to undo blocks above the common ancestor of the old tip and the target
 		old := m.chain[len(m.chain)-1]
 		lca := old
